@@ -23,6 +23,7 @@ fn dispatch(args: &[&str]) -> Option<String> {
         "lex" | "parse" | "parsestat" | "shape" | "lossless" | "defs" | "ancestors" => syntax_cmd::run(args),
         "sweep" => sweep::run(args),
         "race" => race::run(args),
+        "uf" => args.get(1).map(|s| ide::verif_union_find_script(s)),
         "modname" | "projparent" | "lowervfs" | "assemble" => project::run(args),
         _ => ide_cmd::run(args),
     }
